@@ -100,8 +100,8 @@ ArrOf(len, j) == [p \in 1..len |-> (j \div Pow(EKeys, p - 1)) % EKeys]
 ESel == UNION {{[f |-> "E", len |-> len, j |-> j] : j \in 0..Pow(EKeys, len) - 1} : len \in 0..ELen}
 
 \* ---------------------------------------------------------------- family S: structured arrays around the run boundaries
-SLens == IF Tier = "thorough" THEN <<31, 32, 33, 63, 64, 65, 95, 96, 97, 127, 128, 129, 255, 256, 257, 511, 512, 513, 1023, 1024, 1025>>
-         ELSE <<31, 32, 33, 63, 64, 65, 127, 128, 129, 257>>
+SLens == IF Tier = "thorough" THEN <<31, 32, 33, 63, 64, 65, 95, 96, 97, 127, 128, 129, 255, 256, 257, 511, 512, 513, 1025>>
+         ELSE <<31, 32, 33, 64, 65, 129, 257>>
 Shapes == <<"sorted", "reversed", "sawtooth", "organpipe", "fewkeys", "allequal", "revblocks", "twokeys-alt">>
 MinOf2(a, b) == IF a < b THEN a ELSE b
 ShapeKey(sh, n, i) ==       \* i = 0..n-1
@@ -134,7 +134,7 @@ Emit ==
 
 \* ---------------------------------------------------------------- family R: random (tlc -simulate, C25R.cfg)
 Pick(S) == RandomElement(S)
-RMax == IF Tier = "thorough" THEN 1100 ELSE 200
+RMax == IF Tier = "thorough" THEN 700 ELSE 200
 InitR == c = [f |-> "start"]
 \* two steps: length and key range become state values before the keys are drawn
 NextR == \/ c.f = "start" /\ c' = [f |-> "Rparam", n |-> IF Pick(1..4) = 1 THEN Pick(0..70) ELSE Pick(0..RMax),
